@@ -442,3 +442,64 @@ theorem readBack_eq {α : Type} (S : List (Nat × Nat)) (n1 n2 : Nat) (rows : Li
   simp [← this]
 
 end TV.DTW
+
+/-! ### the rows of the returned track, field by field -/
+namespace TV.DTW
+section feat
+variable {α : Type} [Add α] [Sub α] [Mul α] [Div α] [LT α] [LE α] [DecidableLT α] [DecidableLE α] [OfNat α 0]
+
+/-- the row that `_fillAF_dtw` writes for observation `j` when its last partner is `i` -/
+def rowFor (sqrt : α → α) (dim : Nat) (t1 t2 : List (Pt α)) (j i : Nat) (pair : List Nat) : Row α :=
+  { diff := some (distance sqrt dim (t1[j]?.getD ⟨0, 0, 0⟩) (t2[i]?.getD ⟨0, 0, 0⟩)), pair := pair,
+    ex := some ((t1[j]?.getD ⟨0, 0, 0⟩).x - (t2[i]?.getD ⟨0, 0, 0⟩).x),
+    ey := some ((t1[j]?.getD ⟨0, 0, 0⟩).y - (t2[i]?.getD ⟨0, 0, 0⟩).y) }
+
+omit [Div α] [LE α] [DecidableLE α] in
+/-- row `j` after the loop: untouched when no pair concerns it; otherwise `diff`, `ex`, `ey` are those of its **last**
+partner in visiting order and the link list has grown by all its partners, in order -/
+theorem foldl_stepRow_last (sqrt : α → α) (dim : Nat) (t1 t2 : List (Pt α)) (j : Nat) :
+    ∀ (L : List (Nat × Nat)) (r : Row α),
+      L.foldl (stepRow sqrt dim t1 t2 j) r =
+        match (partners L j).getLast? with
+        | none => r
+        | some i => rowFor sqrt dim t1 t2 j i (r.pair ++ partners L j)
+  | [], r => by simp [partners]
+  | s :: L, r => by
+    simp only [List.foldl_cons]
+    rw [foldl_stepRow_last sqrt dim t1 t2 j L]
+    by_cases hj : s.2 = j
+    · have hp : partners (s :: L) j = s.1 :: partners L j := by simp [partners, hj]
+      rw [hp]
+      cases hl : (partners L j).getLast? with
+      | none =>
+        have : partners L j = [] := List.getLast?_eq_none_iff.mp hl
+        simp [this, stepRow, hj, rowFor]
+      | some i =>
+        have : (s.1 :: partners L j).getLast? = some i := by
+          rw [List.getLast?_cons, hl]; rfl
+        simp [this, stepRow, hj, rowFor]
+    · have hp : partners (s :: L) j = partners L j := by simp [partners, hj]
+      rw [hp]
+      simp [stepRow, hj]
+
+end feat
+end TV.DTW
+
+namespace TV.DTW
+section feat2
+variable {α : Type} [Add α] [Sub α] [Mul α] [Div α] [LT α] [LE α] [DecidableLT α] [DecidableLE α] [OfNat α 0]
+
+omit [Div α] [LE α] [DecidableLE α] in
+/-- `_fillAF_dtw` on pairs that exist, with every row spelled out -/
+theorem fillAF_rows (sqrt : α → α) (dim : Nat) (t1 t2 : List (Pt α)) (S : List (Nat × Nat)) (score : α)
+    (hb : ∀ s ∈ S, s.1 < t2.length ∧ s.2 < t1.length) :
+    fillAF sqrt dim t1 t2 S score = some (Out.mk score S
+      ((t1.map (fun _ => ({} : Row α))).mapIdx (fun j r => S.reverse.foldl (stepRow sqrt dim t1 t2 j) r)) S.length) := by
+  have h0 : (freshRows t1).map (fun r : Row α => { r with pair := [] }) = t1.map (fun _ => {}) := by
+    simp [freshRows]
+  unfold fillAF fillAFOn
+  rw [h0, fill_foldl_rows sqrt dim t1 t2 S.reverse _ 0 (by simp) (fun s hs => hb s (List.mem_reverse.mp hs))]
+  simp
+
+end feat2
+end TV.DTW
